@@ -9,7 +9,8 @@ mkdir -p build/bin evidence replays
 rm -rf lean/GitSizer/Gen && mkdir -p lean/GitSizer/Gen
 build/bin/go2lean /repo lean/GitSizer/Gen || cp lean/gen_baseline/Counts.lean lean/gen_baseline/Sizes.lean lean/GitSizer/Gen/
 build/bin/gofacts /repo lean/GitSizer/Gen || cp lean/gen_baseline/Tables.lean lean/gen_baseline/Cmds.lean lean/GitSizer/Gen/
-build/bin/gostr2lean /repo lean/GitSizer/Gen || cp lean/gen_baseline/Strs.lean lean/GitSizer/Gen/
+build/bin/gostr2lean /repo lean/GitSizer/Gen strs || cp lean/gen_baseline/Strs.lean lean/GitSizer/Gen/
+build/bin/gostr2lean /repo lean/GitSizer/Gen objs || cp lean/gen_baseline/Objs.lean lean/GitSizer/Gen/
 (cd lean && lake build GitSizer gsmodel) || true
 # warm the Go build cache for the driver and the binary
 python3 harness/overlay.py build/overlay.json
